@@ -32,6 +32,7 @@ fixed = [
  ("F13", "C17", "43da33b", "S.with_calculated_column(x, e).with_only_columns({a}): Select.skip_to was the Calculation that the Select's own Projection had elided from the target chain"),
  ("F15", "C08", "950a975", "leaf.join(leaf): FROM t JOIN t without aliases; SQLite 'ambiguous column name'"),
  ("F31", "C03", "9408e10", "mark(leaf).without_duplicates(preferred_engine=sql) with a user-defined MarkerRelation subclass: NotImplementedError from backtrack_unary instead of falling back to root application"),
+ ("F32", "C20", "1fac018", "sql_rel.join(it_rel_holding_a_user_defined_RowFilter) with no transfer allowed: the foreign operand was conformed before the engine check; NotImplementedError instead of EngineError"),
  ("F27", "C08", "149b8d5", "identity_in_sql.join(rel_in_iteration) accepted: Select marker around an iteration-engine relation; process() AssertionError in Select.reapply; also C20 (engine mismatch not rejected), C14"),
  ("F26", "C14", "8ebe476", "sql_rel.transferred_to(sql) returned a new Select around sql_rel (not the relation itself), burying an un-sliced sort; found through C08 (order-loss error raised only by process())"),
 ]
